@@ -1,0 +1,6 @@
+//go:build !verif
+
+package storage
+
+// verifYield is a no-op unless the "verif" build tag is set.
+func verifYield(string) {}
